@@ -95,6 +95,28 @@ fn eval_kernels() {
     print!("{}", out);
 }
 
+/// Indirect validation of the translated `update_value` (a nested fn, not callable in isolation): the alpha component of
+/// change-/adjust-/scale-color through the public API. stdin: lines `mode a p` (decimals); stdout: resulting alpha.
+fn eval_update() {
+    use std::io::BufRead;
+    let stdin = std::io::stdin();
+    for line in stdin.lock().lines() {
+        let line = line.unwrap();
+        let f: Vec<&str> = line.split_whitespace().collect();
+        if f.len() != 3 { continue; }
+        let func = match f[0] { "0" => "change-color", "1" => "adjust-color", _ => "scale-color" };
+        let p = if f[0] == "2" { format!("{}%", f[2]) } else { f[2].to_string() };
+        let src = format!("a{{b:alpha({}(rgba(10, 20, 30, {}), $alpha: {}))}}", func, f[1], p);
+        match grass_compiler::from_string(src, &grass_compiler::Options::default().style(grass_compiler::OutputStyle::Compressed)) {
+            Ok(css) => {
+                let v = css.trim_start_matches("a{b:").trim_end_matches('}').to_string();
+                println!("{}", v);
+            }
+            Err(_) => println!("ERR"),
+        }
+    }
+}
+
 /// Native replay of an engine-F counterexample: the same property, evaluated on the real functions.
 fn check_prop(args: &[String]) {
     let name = args[0].as_str();
@@ -126,6 +148,12 @@ fn check_prop(args: &[String]) {
                 chk((m - want).abs() <= n2.abs() * 4.5e-16, "C07b: modulo differs from the remainder shifted into the divisor's sign");
             }
         }
+        "c15_update_value" => {
+            // the nested fn cannot be called natively; replay through the public API on the alpha component:
+            // inputs: current, param, max, has (the lattice variables of the scale variant are ignored)
+            println!("NOT-REPLAYABLE nested fn; see engine_f indirect validation");
+            std::process::exit(2);
+        }
         "c15_hue_to_rgb" => {
             let (m1, m2, h) = (a[0], a[1], a[2]);
             let r = v::hue_to_rgb(m1, m2, h);
@@ -147,6 +175,7 @@ fn main() {
         Some("dump-units") => dump_units(),
         Some("check-epsilon") => check_epsilon(),
         Some("eval-kernels") => eval_kernels(),
+        Some("eval-update") => eval_update(),
         Some("ser-float") => {
             let x: f64 = args[2].parse().unwrap();
             for compressed in [false, true] {
